@@ -14,6 +14,15 @@ DTYPES = {"float": "float", "float64": "float", "float32": "float", "double": "f
           "bool_": "bool"}
 
 
+EXACT = {"complex": "complex128", "float": "float64", "int": "int64", "double": "float64", "float_": "float64", "bool_": "bool"}
+
+
+def exact_dtype(d):
+    """exact NumPy dtype name for comparisons (complex64 != complex128 == complex)"""
+    n = d.name if isinstance(d, (DType, Builtin)) else (d if isinstance(d, str) else (d.dotted.split(".")[-1] if isinstance(d, ExtRef) else None))
+    return EXACT.get(n, n)
+
+
 def dtype_name(d):
     if isinstance(d, DType):
         return DTYPES.get(d.name, d.name)
@@ -630,7 +639,9 @@ def _sigma_real(it, ranges, bvs, body, label):
 
 
 def syntactically_nonneg(e):
-    if z3.is_rational_value(e) or z3.is_int_value(e):
+    if z3.is_int_value(e):
+        return e.as_long() >= 0
+    if z3.is_rational_value(e):
         return e.numerator_as_long() >= 0
     if not z3.is_app(e):
         return False
@@ -756,7 +767,7 @@ def arr_attr(it, a, name):
     if name == "size":
         return a.size()
     if name == "dtype":
-        return DType({"float": "float64", "int": "int64", "complex": "complex128", "bool": "bool"}[a.dtype])
+        return DType(getattr(a.rootarr(), "np_dtype", None) or {"float": "float64", "int": "int64", "complex": "complex128", "bool": "bool"}[a.dtype])
     if name == "T":
         return transpose(it, a)
     if name == "real":
@@ -1698,3 +1709,48 @@ def _factorial(it, x):
         raise PyException("TypeError", "'float' object cannot be interpreted as an integer")
     it.ctx.definedness(x >= 0, "factorial of a non-negative integer")
     return z3.Function("fact", z3.IntSort(), z3.IntSort())(x)
+
+
+# ----------------------------------------------------------------------------- scipy.interpolate.RectBivariateSpline
+class SplineObj:
+    """RectBivariateSpline(x, y, z, kx, ky, s=0): the interpolating tensor-product spline of degrees (kx, ky) through z on the grid x * y.
+    Library contract (A-NP): S(x[i], y[j]) = z[i, j] at every node; polynomials of degree <= k are reproduced (not used as a rule here:
+    it is a property of the operator S itself).  S is an uninterpreted function keyed by (nodes, data, degrees)."""
+
+    def __init__(self, it, x, y, zarr, kx, ky):
+        import hashlib
+        self.x, self.y = as_arr(it, x), as_arr(it, y)
+        Z = as_arr(it, zarr)
+        if Z.dtype == "complex":
+            it.ctx.notes.append("RectBivariateSpline given complex data: NumPy casts to float and discards the imaginary part (ComplexWarning)")
+            Z = map1(it, Z, s_real, "float")
+        self.z = Z.frozen()
+        self.kx, self.ky = kx, ky
+        if not (is_conc(kx) and is_conc(ky)):
+            raise Unsupported("symbolic spline degree")
+        it.ctx.definedness(b_and(cmp("==", self.x.shape[0], self.z.shape[0]), cmp("==", self.y.shape[0], self.z.shape[1])), "RectBivariateSpline: x, y lengths match z.shape")
+        ci, cj = z3.Int("sp!i"), z3.Int("sp!j")
+        key = "|".join([str(kx), str(ky), z3.simplify(zr(self.x.get([ci]))).sexpr(), z3.simplify(zr(self.y.get([cj]))).sexpr(), z3.simplify(zr(self.z.get([ci, cj]))).sexpr(),
+                        str(self.z.shape)])
+        self.key = hashlib.sha256(key.encode()).hexdigest()[:10]
+        self.S = z3.Function("spline_%s_k%s%s" % (self.key, kx, ky), z3.RealSort(), z3.RealSort(), z3.RealSort())
+
+    def __aovc_call__(self, it, args, kwargs):
+        xq, yq = as_arr(it, args[0]), as_arr(it, args[1])
+        if kwargs.get("grid", True) is not True:
+            raise Unsupported("spline evaluation with grid=False")
+        sx, sy = xq.snapshot(), yq.snapshot()
+        S = self.S
+        return Arr([xq.shape[0], yq.shape[0]], lambda idx: S(zr(sx([idx[0]])), zr(sy([idx[1]]))), "float")
+
+    def node_axiom(self, i, j):
+        return z3.Implies(z3.And(i >= 0, zi(i) < zi(self.z.shape[0]), j >= 0, zi(j) < zi(self.z.shape[1])), self.S(zr(self.x.get([i])), zr(self.y.get([j]))) == zr(self.z.get([i, j])))
+
+
+@ext("scipy.interpolate.RectBivariateSpline")
+def _rbs(it, x, y, z_, kx=3, ky=3, s=0, **kw):
+    if not (is_conc(s) and s == 0):
+        raise Unsupported("smoothing spline")
+    if kw:
+        raise Unsupported("RectBivariateSpline options %s" % list(kw))
+    return SplineObj(it, x, y, z_, kx, ky)
